@@ -6,7 +6,8 @@
 //!   `(out R M)` with `R` = result of `expand_calibrations()`: `(ok (instr…))` = `to_instructions()` of the
 //!   expanded program (hoisted definitions first, then the body) | `(recursive instr)` | `(error)`, and
 //!   `M` = result of `expand_calibrations_with_source_map()`: `(ok (instr…) (entry…))` with the top-level
-//!   source map entries `(src (u target))` / `(src (r start stop))` | `(recursive instr)` | `(error)`.
+//!   source map entries `(src (u target))` / `(src (r start stop))` | `(recursive instr)` | `(error)`; a third field
+//!   `same | differs | error | na` says whether expanding the EXPANDED program again changes it.
 //! * `(expand (instr…) instr (prev…))` — `Calibrations::expand(instr, prev)` on the calibrations of the
 //!   program built from the list: `(ok (none) S)` | `(ok (some (instr…)) S)` | `(recursive instr S)` | `(error S)`,
 //!   `S` = `same` iff `Calibrations::expand_with_detail(instr, prev)` gives the same instructions / error.
@@ -22,6 +23,8 @@ use quil_rs::Program;
 use std::str::FromStr;
 
 fn err_sexp(e: &ProgramError) -> Sexp {
+    // a returned error is also FORMATTED (a panic in Display/Debug is a crash of the case)
+    let _ = format!("{e} {e:#} {e:?}");
     match e {
         ProgramError::RecursiveCalibration(i) => tagged("recursive", vec![instruction_to_sexp(i)]),
         _ => tagged("error", vec![]),
@@ -30,8 +33,17 @@ fn err_sexp(e: &ProgramError) -> Sexp {
 
 fn run_prog(instrs: &[Instruction]) -> Sexp {
     let p = Program::from_instructions(instrs.to_vec());
+    // `again`: expanding the expanded program once more changes nothing (`same`), `na` after an error
+    let mut again = atom("na");
     let r = match p.expand_calibrations() {
-        Ok(e) => tagged("ok", vec![instructions_to_sexp(&e.to_instructions())]),
+        Ok(e) => {
+            again = match e.expand_calibrations() {
+                Ok(e2) if e2.to_instructions() == e.to_instructions() => atom("same"),
+                Ok(_) => atom("differs"),
+                Err(_) => atom("error"),
+            };
+            tagged("ok", vec![instructions_to_sexp(&e.to_instructions())])
+        }
         Err(e) => err_sexp(&e),
     };
     let m = match p.expand_calibrations_with_source_map() {
@@ -53,7 +65,7 @@ fn run_prog(instrs: &[Instruction]) -> Sexp {
         }
         Err(e) => err_sexp(&e),
     };
-    tagged("out", vec![r, m])
+    tagged("out", vec![r, m, again])
 }
 
 fn run_expand(instrs: &[Instruction], i: &Instruction, prev: &[Instruction]) -> Sexp {
@@ -81,6 +93,74 @@ fn prog_case(ctx: &mut Ctx, instrs: Vec<Instruction>) {
     ctx.case(input, || run_prog(&instrs));
 }
 
+/// `Calibrations::expand` / `expand_with_detail` on every body instruction of the program (no breadcrumbs)
+fn expand_cases(ctx: &mut Ctx, instrs: &[Instruction]) {
+    let body: Vec<Instruction> = Program::from_instructions(instrs.to_vec()).body_instructions().cloned().collect();
+    for i in body {
+        let input = tagged("expand", vec![instructions_to_sexp(instrs), instruction_to_sexp(&i), instructions_to_sexp(&[])]);
+        ctx.case(input, || run_expand(instrs, &i, &[]));
+    }
+}
+
+/// API-only shapes the parser cannot produce: a calibration whose body is replaced by `body`
+fn with_body(defcal: &str, body: Vec<Instruction>) -> Instruction {
+    match one(defcal) {
+        Instruction::CalibrationDefinition(mut c) => {
+            c.instructions = body;
+            Instruction::CalibrationDefinition(c)
+        }
+        Instruction::MeasureCalibrationDefinition(mut c) => {
+            c.instructions = body;
+            Instruction::MeasureCalibrationDefinition(c)
+        }
+        other => other,
+    }
+}
+
+/// definitions of every kind `add_instruction` keeps out of the body (closed: no calibration variables inside)
+const NESTED_DEFS: &[&str] = &[
+    "DECLARE a BIT[2]",
+    "DECLARE c BIT[2] SHARING ro OFFSET 1 BIT",
+    "DEFWAVEFORM w1:\n\t1, 0.5",
+    "DEFWAVEFORM w2(%a):\n\t%a, 2*%a",
+    "DEFFRAME 0 \"xy\":\n\tINITIAL-FREQUENCY: 1e9",
+    "DEFGATE G1:\n\t0, 1\n\t1, 0",
+    "DEFGATE G2(%a) p AS PAULI-SUM:\n\tX(%a) p",
+    "DEFGATE G3 a AS SEQUENCE:\n\tY a",
+    "DEFCIRCUIT C1 a:\n\tY a",
+    "DEFCAL Y 0:\n\tWAIT",
+    "DEFCAL MEASURE 2 addr:\n\tWAIT",
+    "PRAGMA EXTERN f \"INTEGER (x : INTEGER)\"",
+    "PRAGMA EXTERN",
+];
+
+fn api_shapes(ctx: &mut Ctx) {
+    // an EMPTY calibration body: the instruction disappears
+    for prog in ["X 0", "X 0\nNOP\nX 0", "MEASURE 0 ro[0]"] {
+        let mut instrs = vec![with_body("DEFCAL X 0:\n\tNOP", vec![]), with_body("DEFCAL MEASURE 0 addr:\n\tNOP", vec![])];
+        instrs.extend(calgen::parse_all(prog));
+        expand_cases(ctx, &instrs);
+        prog_case(ctx, instrs);
+    }
+    // every hoisted kind nested in a calibration body, first / middle / last, through one and two levels
+    for d in NESTED_DEFS {
+        let def = one(d);
+        for pos in 0..3 {
+            let mut body = vec![one("NOP"), one("Y 1")];
+            body.insert(pos, def.clone());
+            let mut instrs = vec![one("DECLARE ro BIT[4]"), with_body("DEFCAL X 0:\n\tNOP", body.clone()), one("DEFCAL Z 0:\n\tX 0\n\tX 0")];
+            instrs.extend(calgen::parse_all("Z 0\nH 0\nX 0"));
+            if pos == 0 {
+                expand_cases(ctx, &instrs);
+            }
+            prog_case(ctx, instrs);
+            let mut instrs = vec![with_body("DEFCAL MEASURE q addr:\n\tNOP", body)];
+            instrs.extend(calgen::parse_all("MEASURE 1 ro[0]"));
+            prog_case(ctx, instrs);
+        }
+    }
+}
+
 fn text_case(ctx: &mut Ctx, parts: &[&str]) {
     let mut instrs = vec![];
     for p in parts {
@@ -92,6 +172,7 @@ fn text_case(ctx: &mut Ctx, parts: &[&str]) {
             }
         }
     }
+    expand_cases(ctx, &instrs);
     prog_case(ctx, instrs);
 }
 
@@ -142,6 +223,20 @@ const CORPUS: &[&[&str]] = &[
     &["DEFCAL X q:\n\tCZ q w\n\tSHIFT-PHASE q \"xy\" %nope", "X 0\nDAGGER X 0"],
     // a redefinition with the same signature replaces in place
     &["DEFCAL X 0:\n\tNOP", "DEFCAL X q:\n\tWAIT", "DEFCAL X 0:\n\tHALT", "X 0\nX 1"],
+    // seeded change C17-2: a literal parameter BEFORE a variable one (the variable is bound by POSITION)
+    &["DEFCAL U2(0, %theta) q:\n\tSHIFT-PHASE q \"xy\" %theta", "U2(0, 1.5) 2"],
+    &["DEFCAL U3(0, %t, 1) q:\n\tSHIFT-PHASE q \"xy\" %t\n\tRX(%t) q", "U3(0, 1.5, 1) 2"],
+    &["DEFCAL U3(%t, 2, %u) q:\n\tU2(%u, %t) q\n\tDELAY q %u-%t", "U3(0.5, 2, 3) 1"],
+    &["DEFCAL U3(1, 2, %u) 0:\n\tDELAY 0 %u", "DEFCAL U3(%t, 2, 3) 0:\n\tDELAY 0 %t", "U3(1, 2, 3) 0\nU3(1, 2, 4) 0\nU3(5, 2, 3) 0"],
+    // a fixed qubit before a variable one
+    &["DEFCAL CZ 1 r:\n\tX r", "DEFCAL CZ q 2:\n\tY q", "CZ 1 0\nCZ 0 2\nCZ 1 2"],
+    // named measurements: MEASURE!name only matches DEFCAL MEASURE!name; a named calibration delegating to the
+    // unnamed measurement (and back) is not a recursion
+    &["DEFCAL MEASURE!fast 0 addr:\n\tMEASURE 0 addr", "MEASURE!fast 0 ro[0]\nMEASURE 0 ro[0]"],
+    &["DEFCAL MEASURE!fast q addr:\n\tMEASURE q addr[0]", "DEFCAL MEASURE q addr:\n\tMEASURE!slow q addr[0]\n\tFENCE q", "MEASURE!fast 1 ro[2]\nMEASURE!slow 1 ro[2]"],
+    &["DEFCAL MEASURE!a 0:\n\tMEASURE!b 0", "DEFCAL MEASURE!b 0:\n\tMEASURE 0", "DEFCAL MEASURE 0:\n\tMEASURE!a 0", "MEASURE!b 0"],
+    // the formal target has the name of a declared region; PRAGMA LOAD-MEMORY near misses
+    &["DECLARE ro BIT[4]", "DEFCAL MEASURE q ro:\n\tCAPTURE q \"ro_rx\" flat(duration: 1, iq: 1) ro[1]\n\tPRAGMA LOAD-MEMORY \"ro\"\n\tPRAGMA load-memory \"ro\"\n\tPRAGMA LOAD-MEMORY \"ro[0]\"\n\tPRAGMA LOAD-MEMORY x \"ro\"", "MEASURE 1 other[1]\nMEASURE 2 ro[3]"],
     // nothing matches
     &["DEFCAL X 0:\n\tNOP", "Y 0\nMEASURE 0 ro[0]\nRESET\nX 1"],
     &["H 0\nCNOT 0 1"],
@@ -194,6 +289,9 @@ fn exhaustive(ctx: &mut Ctx) {
         for (x, bx) in body.iter().enumerate() {
             let mut instrs: Vec<Instruction> = set.iter().map(|&k| cals[k].clone()).collect();
             instrs.push(bx.clone());
+            if set.len() <= 2 {
+                expand_cases(ctx, &instrs);
+            }
             prog_case(ctx, instrs);
             if !quick && set.len() <= 2 {
                 for (y, by) in body.iter().enumerate() {
@@ -216,8 +314,33 @@ fn run(ctx: &mut Ctx) {
     }
     // (2) exhaustive small alphabet
     exhaustive(ctx);
+    // (2b) API-only shapes: empty bodies, every hoisted definition kind nested in a body
+    api_shapes(ctx);
+    // (2c) kind sweep: every instruction template alone in a gate calibration and in a measurement calibration,
+    // through the program entry points and through `Calibrations::expand`; every template unmatched at top level
+    let reps = if ctx.quick() { 2 } else { 20 };
+    let mut rng = ctx.rng(20);
+    for _ in 0..reps {
+        for k in 0..calgen::TEMPLATES {
+            for measure in [false, true] {
+                let instrs = calgen::parse_pieces(&calgen::sweep_case(&mut rng, k, measure));
+                expand_cases(ctx, &instrs);
+                prog_case(ctx, instrs);
+            }
+        }
+        let instrs = calgen::parse_pieces(&calgen::sweep_unmatched(&mut rng));
+        prog_case(ctx, instrs);
+    }
+    // (2d) large calibration sets (40-70 definitions, many of them matching the same instruction)
+    let n = if ctx.quick() { 20 } else { 300 };
+    let mut rng = ctx.rng(21);
+    for _ in 0..n {
+        let ncal = 40 + rng.below(31);
+        let instrs = calgen::random_program(&mut rng, Mode::Safe, ncal, 3, false);
+        prog_case(ctx, instrs);
+    }
     // (3) seeded random programs over the calibration alphabets of `calgen`
-    let n = if ctx.quick() { 6_000 } else { 150_000 };
+    let n = if ctx.quick() { 5_000 } else { 150_000 };
     let mut rng = ctx.rng(17);
     for _ in 0..n {
         let ncal = rng.below(7);
